@@ -28,7 +28,7 @@ from .tlc import MachineryError
 
 ROOT = os.path.dirname(os.path.dirname(os.path.abspath(__file__)))
 PY = "/venv/bin/python"
-ALL_FIXES = ["F1", "F2", "F3", "F4", "F7", "F9", "F10", "F22"]
+ALL_FIXES = ["F1", "F2", "F3", "F4", "F7", "F9", "F10", "F22", "F24"]
 NCPU = os.cpu_count() or 4
 
 # ---------------------------------------------------------------------------------------
@@ -190,6 +190,10 @@ SUITES["feat333"]["cfg"]["max_stroke"] = 99
 SUITES["feat333"]["kinds"] = [2, 3, 4, 9]
 SUITES["feat333"]["seeds"] = "SeedsSeg333"
 SUITES["feat333"]["design_depth"] = {"quick": -1, "thorough": -1}
+
+# construction from a copy of the reached graph (call 12: direct / from_tracks / FeatureDict, ids kept or removed)
+for _s in ("struct3", "struct3c", "struct3p", "struct4s", "struct5s", "struct4", "seg13", "seg22", "seg3d", "seg13n", "seg6s"):
+    SUITES[_s]["kinds"] = list(SUITES[_s]["kinds"]) + [12]
 
 import hashlib
 
